@@ -125,6 +125,17 @@ def run_impl(spec, subset_seed):
   k = rng.randint(1, len(ids))
   subset = rng.sample(ids, k)
   res['subset'] = subset
+  res['earlier_calls'] = subset_seed % 2 == 1
+  if res['earlier_calls']:
+    # the object has answered before: the same geos in another order, other geos, everything
+    try:
+      ge.get_eligible_assignments(list(reversed(subset)), indices=True)
+      ge.get_eligible_assignments(sorted(subset), indices=True)
+      ge.get_eligible_assignments(list(reversed(subset)), indices=False)
+      ge.get_eligible_assignments(rng.sample(ids, rng.randint(1, len(ids))), indices=True)
+      ge.get_eligible_assignments()
+    except Exception:
+      pass
   try:
     a_idx = ge.get_eligible_assignments(subset, indices=True)
     a_ids = ge.get_eligible_assignments(subset, indices=False)
@@ -268,7 +279,7 @@ def run(tier):
                     '(all-zero row, cell 2/-1/NaN/str/None/0.5, duplicate ID incl. 1 vs "1", missing value column, '
                     'missing geo, duplicated column, two defects); plus exhaustively every table of 1-3 rows over the '
                     '7 legal row types; for each accepted table a random non-empty ordered subset is queried with '
-                    'indices=True, indices=False and with no subset. non-trivial: >= 2 rows or malformed; '
+                    'indices=True, indices=False and with no subset (in every other case after the same object has answered for the same geos in other orders, for other geos and for all). non-trivial: >= 2 rows or malformed; '
                     'distinct: (rows, layout, subset)')
   ck.cov['exhaustive_part'] = 'all 7 + 49 + 343 tables with 1..3 rows of legal types'
   ck.cov['distribution'] = dist
